@@ -59,6 +59,11 @@ func T3EncBufferBounds(p *AsmProg, kind string) func(x *Exec) {
 		switch kind {
 		case "string", "qstring":
 			vp = Ptr{Obj: hdr, Off: x.c64(0)}
+		case "scalar":
+			// an 8-byte scalar (integer of any width, float, bool in the low byte): arbitrary bits
+			sc := x.newObject(8, nil, "scalar")
+			x.storeLeaf(sc, 0, 8, x.newInput("scalar", 64))
+			vp = Ptr{Obj: sc, Off: x.c64(0)}
 		default:
 			x.notEncoded("tier-3 encoder harness: unknown value kind %q", kind)
 		}
@@ -123,6 +128,60 @@ func T3EncBufferBounds(p *AsmProg, kind string) func(x *Exec) {
 						as.R["AX"] = s.Not(k)
 					}
 					x.storeLeafP(dnp, 0, 8, m)
+					return true
+				case sym.Name == "native.i64toa" || sym.Name == "native.u64toa":
+					// xtoa(out DI, val SI) -> number of bytes written: the decimal digits of val
+					// (and a sign for negative int64)
+					dp, ok := as.R["DI"].(Ptr)
+					if !ok || dp.Obj == nil {
+						x.check(s.False, "assert", "native integer formatter is called with a non-pointer destination")
+						x.abort(abEnd, "xtoa")
+					}
+					val := x.asmTerm(as.R["SI"])
+					mag := val
+					sign := x.c64(0)
+					if sym.Name == "native.i64toa" {
+						neg := s.Slt(val, x.c64(0))
+						mag = s.Ite(neg, s.Neg(val), val)
+						sign = s.Ite(neg, x.c64(1), x.c64(0))
+					}
+					digits := x.c64(1)
+					pow := uint64(10)
+					for d := 2; d <= 20; d++ {
+						digits = s.Ite(s.Uge(mag, s.Const(64, pow)), x.c64(int64(d)), digits)
+						if d < 20 {
+							pow *= 10
+						}
+					}
+					n := s.Add(digits, sign)
+					room := s.Sub(x.objLSize(dp.Obj), dp.Off)
+					x.check(s.BAnd(s.Ule(dp.Off, x.objLSize(dp.Obj)), s.Ule(n, room)), "assert",
+						"the space reserved before the native integer formatter is smaller than the digits of the value it is given")
+					clobber(as, "CX", "DX", "SI", "DI", "R8", "R9", "R10", "R11")
+					as.R["AX"] = n
+					x.covers["formatted"] = true
+					return true
+				case sym.Name == "native.f64toa" || sym.Name == "native.f32toa":
+					// ftoa(out DI, val X0) -> bytes written: at most 24 for a float64, 15 for a float32
+					// (shortest round-trip representation, sign and exponent included)
+					dp, ok := as.R["DI"].(Ptr)
+					if !ok || dp.Obj == nil {
+						x.check(s.False, "assert", "native float formatter is called with a non-pointer destination")
+						x.abort(abEnd, "ftoa")
+					}
+					maxn := int64(24)
+					if sym.Name == "native.f32toa" {
+						maxn = 15
+					}
+					n := x.junk(64)
+					x.assume(s.Uge(n, x.c64(1)))
+					x.assume(s.Ule(n, x.c64(maxn)))
+					room := s.Sub(x.objLSize(dp.Obj), dp.Off)
+					x.check(s.BAnd(s.Ule(dp.Off, x.objLSize(dp.Obj)), s.Ule(x.c64(maxn), room)), "assert",
+						"the space reserved before the native float formatter is smaller than its longest output")
+					clobber(as, "CX", "DX", "SI", "DI", "R8", "R9", "R10", "R11")
+					as.R["AX"] = n
+					x.covers["formatted"] = true
 					return true
 				case strings.HasSuffix(sym.Name, "/rt.GrowSlice"):
 					// GrowSlice(et AX, old{ptr BX, len CX, cap DI}, cap SI) -> {ptr AX, len BX, cap CX}:
